@@ -5,3 +5,4 @@ import Atlas.Exec
 import Atlas.Hash
 import Atlas.Lex
 import Atlas.Format
+import Atlas.Sort
